@@ -99,6 +99,7 @@ RawCases ==
                 o \in {"raw.fpadd", "raw.fpsub"}, im \in Impls, x \in Unred \X Unred, al \in {0, 1} })
      \o SetToSeq({ [op |-> "raw.fpdbl", impl |-> im, a |-> LE(x, 48), p |-> LE(p, 48), alias |-> al, src |-> "gen"] : im \in Impls, x \in RawFam \cup Unred, al \in {0, 1} })
      \o SetToSeq({ [op |-> "raw.mul", impl |-> im, a |-> LE(x[1], 48), b |-> LE(x[2], 48), src |-> "gen"] : im \in Impls, x \in RawFam \X RawFam })
+     \o SetToSeq({ [op |-> "raw.mullo", impl |-> "member", a |-> LE(x[1], 48), b |-> LE(x[2], 48), src |-> "gen"] : x \in RawFam \X RawFam })
      \o SetToSeq({ [op |-> "raw.sqr", impl |-> im, a |-> LE(x, 48), src |-> "gen"] : im \in Impls, x \in RawFam \cup fam })
      \o SetToSeq({ [op |-> "raw.redc", impl |-> im, w |-> LE(x, 96), p |-> LE(p, 48), inv |-> LE(inv, 48), src |-> "gen"] : im \in Impls, x \in wide })
      \o SetToSeq({ [op |-> o, a |-> LE(x, 48), alias |-> al, src |-> "gen"] : o \in {"raw.copy", "raw.shr1", "raw.divdword", "raw.divword"}, x \in RawFam, al \in {0, 1} })
